@@ -359,6 +359,37 @@ func runCase(r *h.Run, c caseT) {
 				extraFds = append(extraFds, fd)
 			}
 		}
+		if c.Net == "udp" && c.Dials > 0 {
+			// UDP connections dialed by the engine (DialAsync("udp")): no open notification, one close
+			// notification each, and their sockets are the engine's to release - also one the application
+			// closed itself before Stop
+			if ul, err := net.ListenUDP("udp", &net.UDPAddr{IP: net.IPv4(127, 0, 0, 1)}); err == nil {
+				extra = append(extra, ul)
+				for k := 0; k < c.Dials+1; k++ {
+					target := ul.LocalAddr().String()
+					if k%2 == 1 {
+						target = addr // the engine's own listener: the dialed connection and its session live in one engine
+					}
+					closeEarly := k == 2
+					if err := g.DialAsync("udp", target, func(cn *nbio.Conn, err error) {
+						atomic.AddInt64(&progress, 1)
+						if err == nil {
+							_, _ = cn.Write([]byte("dialed"))
+							if closeEarly {
+								_ = cn.Close()
+							}
+						}
+					}); err == nil {
+						atomic.AddInt64(&pendingDial, 1)
+						r.Count("udp_connections_dialed_by_the_engine", 1)
+					}
+				}
+				// the callbacks run on the engine's asynchronous queue: let them happen before Stop in most cases
+				if rng.Intn(4) != 0 {
+					time.Sleep(2 * time.Millisecond)
+				}
+			}
+		}
 		var wg sync.WaitGroup
 		if c.Storm && c.Net != "udp" {
 			wg.Add(1)
